@@ -52,8 +52,9 @@ def run(ctx):
         pass
     mps.selftest(); lpref.selftest()
     INF = math.inf
-    VNAMES = ["x", "y", "zz", "alpha", "beta_1", "w", "flowrate", "capacity", "q", "temperatureK", "u"]
-    CNAMES = ["c", "lim", "bal", "demand", "capacityrow", "r", "eq", "budget_total", "k"]
+    VNAMES = ["x", "y", "zz", "alpha", "beta_1", "w", "flowrate", "capacity", "q", "temperatureK", "u",
+              "alpha1", "alpha2", "gamma7", "gamma8"]        # six characters, distinct only in the sixth
+    CNAMES = ["c", "lim", "bal", "demand", "capacityrow", "r", "eq", "budget_total", "k", "limit1", "limit2", "limit3"]
 
     TINY = 1e-9      # declared: coefficients are in [1e-6, 1e6]; anything below 1e-9 is rounding residue (x - x)
 
